@@ -332,6 +332,14 @@ template <class T, int D> struct Members
         if (!inf.isInfinite () || inf.isEmpty ()) fail (std::string (X::cls ()) + "-isInfinite", tg + " makeInfinite box not reported infinite");
         // the defect candidate of DESIGN §7: empty vs infinite
         // (reported by pairs() on the lattice as well; here the literal makeEmpty / makeInfinite pair)
+        {
+            // the Lean witness of *_intersectsBox_iff_FALSE: the inverted box [5,-5] against [-5,5]
+            IP<D> a, c;
+            for (int i = 0; i < D; ++i) { a[i] = 10; c[i] = -10; }
+            B wE = mkB<T, D> (a, c), wI = mkB<T, D> (c, a);
+            std::lock_guard<std::mutex> l (g_mu);
+            printf ("WITNESS %s intersectsBox_iff_FALSE: [5..-5].intersects([-5..5]) = %d, [5..-5].isEmpty() = %d\n", tg.c_str (), (int) wE.intersects (wI), (int) wE.isEmpty ());
+        }
         if (e.intersects (inf) || inf.intersects (e))
             fail (std::string (X::cls ()) + "-intersects:empty-vs-containing",
                   tg + " makeEmpty().intersects(makeInfinite()) = " + (e.intersects (inf) ? "true" : "false") + ", reverse = " + (inf.intersects (e) ? "true" : "false") +
@@ -913,8 +921,31 @@ template <class T> struct Xf
         }
     }
 
+    // the witnesses of the Lean theorems transformOut_{empty,infinite,projective}_FALSE, replayed on the real code
+    static void witnesses ()
+    {
+        M id; // identity
+        M pr;
+        pr[3][3] = 2; // identity with m[3][3] = 2: every image is the corner divided by 2
+        B unit (V (0, 0, 0), V (1, 1, 1));
+        B e;
+        B inf;
+        inf.makeInfinite ();
+        B r1 = unit; transform (e, id, r1);
+        B r2 = unit; transform (inf, id, r2);
+        B r3 (V (5, 5, 5), V (6, 6, 6)); transform (unit, pr, r3);
+        B v3 = transform (unit, pr);
+        printf ("WITNESS %s transformOut_empty_FALSE: transform(makeEmpty(), I, result=[0,1]^3) -> result=%s isEmpty=%d (value form: isEmpty=%d)\n", tg ().c_str (),
+                boxS (r1).c_str (), (int) r1.isEmpty (), (int) transform (e, id).isEmpty ());
+        printf ("WITNESS %s transformOut_infinite_FALSE: transform(makeInfinite(), I, result=[0,1]^3) -> result=%s isInfinite=%d (value form: isInfinite=%d)\n", tg ().c_str (),
+                boxS (r2).c_str (), (int) r2.isInfinite (), (int) transform (inf, id).isInfinite ());
+        printf ("WITNESS %s transformOut_projective_FALSE: transform([0,1]^3, diag(1,1,1,2), result=[5,6]^3) -> result=%s ; value form -> %s\n", tg ().c_str (),
+                boxS (r3).c_str (), boxS (v3).c_str ());
+    }
+
     static void run (unsigned long seed, long n)
     {
+        witnesses ();
         std::mt19937_64 g (seed * 2654435761ul + sizeof (T));
         Tally           t;
         auto            I = [&] (int lo, int hi) { return (long long) lo + (long long) (g () % (unsigned long long) (hi - lo + 1)); };
